@@ -3,11 +3,20 @@
 // is accepted only when the same violation class recurs.
 package shrink
 
-import "time"
+import (
+	"sort"
+	"time"
+)
 
 // Test re-executes the system from a candidate tape and reports whether the
 // same violation class occurs; used is how many values the run consumed.
 type Test func(vals []uint64) (same bool, used int)
+
+// Labels, when set by the caller, returns the decision labels of the tape that
+// was executed last by Test (one per consumed value). They let the minimiser
+// delete whole generated units (an operation, a phase, a client turn): every
+// label that occurs at least twice is tried as a unit boundary.
+var Labels func() []string
 
 type Stats struct {
 	Execs    int
@@ -55,6 +64,65 @@ func Minimise(vals []uint64, test Test, maxExecs int, maxDur time.Duration) ([]u
 	improved := true
 	for improved && !over() {
 		improved = false
+		// 1b. delete whole units delimited by a repeating label
+		if Labels != nil {
+			try(cur) // refresh labels for the current tape
+			labs := append([]string(nil), Labels()...)
+			count := map[string]int{}
+			for _, l := range labs {
+				count[l]++
+			}
+			var cands []string
+			for l, c := range count {
+				if c >= 2 && c <= len(labs)/2+1 {
+					cands = append(cands, l)
+				}
+			}
+			sort.Slice(cands, func(i, j int) bool {
+				if count[cands[i]] != count[cands[j]] {
+					return count[cands[i]] < count[cands[j]] // coarse units first
+				}
+				return cands[i] < cands[j]
+			})
+			if len(cands) > 10 {
+				cands = cands[:10]
+			}
+			for _, l := range cands {
+				if over() {
+					break
+				}
+				// walk the units from the last to the first
+				for pass := 0; pass < 2 && !over(); pass++ {
+					var starts []int
+					for i, x := range labs {
+						if x == l && i < len(cur) {
+							starts = append(starts, i)
+						}
+					}
+					removed := false
+					for k := len(starts) - 1; k >= 0 && !over(); k-- {
+						a := starts[k]
+						b := len(cur)
+						if k+1 < len(starts) {
+							b = starts[k+1]
+						}
+						if a >= len(cur) || b > len(cur) || a >= b {
+							continue
+						}
+						c := append(append([]uint64(nil), cur[:a]...), cur[b:]...)
+						if try(c) {
+							improved, removed = true, true
+							labs = append([]string(nil), Labels()...)
+							break // indices changed: recompute the unit starts
+						}
+					}
+					if !removed {
+						break
+					}
+					pass = -1 // keep going while units can be removed
+				}
+			}
+		}
 		// 2. delete blocks
 		for _, bs := range []int{64, 16, 8, 4, 3, 2, 1} {
 			for i := len(cur) - bs; i >= 0 && !over(); i -= bs {
